@@ -392,6 +392,7 @@ package modeling
 //@ func Tri.P2Vec3Attr pure
 //@   requires 0 <= t.startingIndex + 1 && t.startingIndex + 1 < len(t.mesh.indices)
 //@   requires 0 <= t.mesh.indices[t.startingIndex + 1] && t.mesh.indices[t.startingIndex + 1] < len(t.mesh.v3Data[attr])
+//@ func Tri.Area3D pure
 //@ func Tri.P3Vec3Attr pure
 //@   requires 0 <= t.startingIndex + 2 && t.startingIndex + 2 < len(t.mesh.indices)
 //@   requires 0 <= t.mesh.indices[t.startingIndex + 2] && t.mesh.indices[t.startingIndex + 2] < len(t.mesh.v3Data[attr])
